@@ -5,6 +5,7 @@ the *resolved* target definition together with the text that is written in the s
 reference model never has to resolve names (except in the C11 check, which has its own
 resolver).
 """
+import re
 from dataclasses import dataclass, field, replace
 from typing import Any, Dict, List, Optional, Tuple, Union
 
@@ -143,6 +144,7 @@ class Style:
     pre_blank: int = 0  # blank lines at the very top of the file
     trailing_newline: bool = True
     trailing_comments: bool = False  # `// t` after every field / member / constant / alias on the same line
+    escaped_strings: bool = False  # a string constant full of escape sequences (\n, \t, \", \\) right after the proto statement of every file
 
 
 DEFAULT_STYLE = Style()
@@ -321,6 +323,9 @@ class Printer:
         if p.name is not None:
             n = self.emit(0, "proto %s%s" % (p.name, self.semi()))
             self.map.add_def(("proto:" + p.name,), "proto", n, 7, p.name, self.file)
+        if st.escaped_strings and p.name is not None:
+            # one source line; the VALUE contains line feeds - no later position may move because of it
+            self.emit(0, 'const STYLE_NOTE_%s = "l1\\nl2\\n\\n\\tq\\"uo\\"te \\\\n"%s' % (re.sub(r"\W", "_", p.name).upper(), self.semi()))
         if p.imports:
             self.emit(0, "")
         for as_name, child in p.imports:
